@@ -266,8 +266,9 @@ Good(type) ==
       [] type = "timedelta" -> UNION {TdSpellTable[i].t : i \in 1..Len(TdSpellTable)}
 (* parts for multiple options: no comma inside a part; integer ranges *)
 MultiParts(type) ==
-    IF type = "int" THEN {<<49>>, <<55>>, <<45,50>>, <<49,58,51>>, <<53,58>>, <<51,58,49>>, <<45,49,58,49>>, <<58,53>>, <<120>>, <<>>}
-                         \* 1 7 -2 1:3 5: 3:1 -1:1 :5 x ""
+    IF type = "int" THEN {<<49>>, <<55>>, <<45,50>>, <<49,58,51>>, <<53,58>>, <<51,58,49>>, <<45,49,58,49>>, <<58,53>>, <<120>>, <<>>,
+                          <<48>>, <<45,50,58,48>>, <<48,58,48>>, <<48,58,50>>, <<45,51,58,45,50>>}
+                         \* 1 7 -2 1:3 5: 3:1 -1:1 :5 x ""  0 -2:0 0:0 0:2 -3:-2  (bounds equal to 0, negative bounds)
     ELSE IF type = "str" THEN {<<97>>, <<>>, <<98,32,99>>, <<49,58,51>>}                 \* a "" "b c" 1:3 (no range for str)
     ELSE IF type = "float" THEN {<<49,46,53>>, <<51>>, <<46,53>>, <<97,98,99>>}                             \* 1.5 3 .5 abc
     ELSE IF type = "bool" THEN {<<116,114,117,101>>, <<48>>}                                                \* true 0
@@ -307,6 +308,7 @@ NativeTable ==
        [lit |-> <<55>>, type |-> "int", mult |-> TRUE, r |-> Err],                                      \* 7 for a multiple option
        [lit |-> <<91,49,44,32,39,120,39,93>>, type |-> "int", mult |-> TRUE, r |-> Err],                \* [1, 'x']
        [lit |-> <<39,49,58,51,44,55,39>>, type |-> "int", mult |-> TRUE, r |-> Ok(<<1, 2, 3, 7>>)],     \* '1:3,7'
+       [lit |-> <<39,45,50,58,48,44,55,39>>, type |-> "int", mult |-> TRUE, r |-> Ok(<<-2, -1, 0, 7>>)],    \* '-2:0,7'
        [lit |-> <<91,39,97,39,44,32,39,98,39,93>>, type |-> "str", mult |-> TRUE, r |-> Ok(<<<<97>>, <<98>>>>)] >>   \* ['a', 'b']
 
 ----------------------------------------------------------------------------
